@@ -189,7 +189,7 @@ Qed.
 Lemma hive_limits_pos ml l : (0 <= ml)%Z -> let '(a, b) := hive_limits ml l in (1 <= a /\ 1 <= b)%Z.
 Proof.
   intros Hml. unfold hive_limits.
-  remember (if (l >? ml)%Z then ml else l) as l' eqn:El.
+  remember (hive_clamp ml l) as l' eqn:El.
   destruct (l' >? 2)%Z eqn:E; [|lia].
   apply Z.gtb_lt in E.
   pose proof (Z.quot_pos l' 2 ltac:(lia) ltac:(lia)).
@@ -218,7 +218,15 @@ Proof.
   destruct (hive_match_val maxpo (fn_target req) (fn_pos req) [requester] conn) as [mc ->]; cbn.
   destruct (rand_limit_val mc lc Hc) as [rc ->]; cbn.
   destruct (hive_match_val maxpo (fn_target req) (fn_pos req) (requester :: rc) known) as [mk ->]; cbn.
-  destruct (rand_limit_val mk lk Hk) as [rk ->]; cbn. discriminate.
+  destruct (rand_limit_val mk lk Hk) as [rk ->]; cbn [bind].
+  assert (Hc0 : (0 <= hive_clamp ml (fn_limit req))%Z).
+  { unfold hive_clamp. destruct (_ >? _)%Z; destruct (_ <? 0)%Z eqn:E; try lia; apply Z.ltb_ge in E; lia. }
+  destruct (Z.of_nat (length (rc ++ rk)) >? hive_clamp ml (fn_limit req))%Z eqn:E; cbn; [|discriminate].
+  apply Z.gtb_lt in E.
+  assert ((hive_clamp ml (fn_limit req) <? 0)%Z = false) as -> by (apply Z.ltb_ge; lia).
+  unfold slice_to.
+  assert ((Z.to_nat (hive_clamp ml (fn_limit req)) <=? length (rc ++ rk))%nat = true) as -> by (apply Nat.leb_le; lia).
+  cbn. discriminate.
 Qed.
 
 Lemma hive_add_peers_val maxpo base ping ps : exists n, hive_add_peers maxpo base ping ps = Val n.
